@@ -7,9 +7,8 @@ package state
 // last change. Heights are SYMBOLIC.
 
 import (
-	"encoding/binary"
-
 	"github.com/gnolang/gno/tm2/pkg/bft/types"
+	"github.com/gnolang/gno/tm2/pkg/crypto/ed25519"
 	dbm "github.com/gnolang/gno/tm2/pkg/db"
 )
 
@@ -33,8 +32,18 @@ func (d *verifC41DB) Set(k, v []byte) error {
 }
 
 // ---- symbolic-run stand-ins (check config "func_stubs")
+// keys: one byte naming the position of the height in a table of the heights
+// seen so far (equal heights get equal keys, different heights different keys)
+var verifC41Heights []int64
+
 func verifStubC41Key(height int64) []byte {
-	return binary.BigEndian.AppendUint64([]byte("validatorsKey:"), uint64(height))
+	for i, x := range verifC41Heights {
+		if x == height {
+			return []byte{byte(i)}
+		}
+	}
+	verifC41Heights = append(verifC41Heights, height)
+	return []byte{byte(len(verifC41Heights) - 1)}
 }
 
 var verifC41Objs []*ValidatorsInfo
@@ -61,7 +70,7 @@ func VerifC41_ValidatorHistoryLookup() {
 
 	// what the store holds at the three heights involved, written by the real
 	// saveValidatorsInfo with the set unchanged since height c
-	verifC41Objs = nil
+	verifC41Objs, verifC41Heights = nil, nil
 	db := &verifC41DB{}
 	vs := &types.ValidatorSet{}
 	saveValidatorsInfo(db, c, c, vs)
@@ -80,5 +89,68 @@ func VerifC41_ValidatorHistoryLookup() {
 	}
 	p := verifPanics(func() { saveValidatorsInfo(db, c, h+1, vs) })
 	verifAssert(p, "a last-change height above the saved height is refused")
+	verifReach("end")
+}
+
+// ---- LoadValidators across checkpoints: the set returned for height h is
+// the set in effect at h, i.e. the set of the last change advanced by h - c
+// proposer-priority rounds.  The chain stores, at every checkpoint height k,
+// the set as of k (advanced k - c rounds); LoadValidators reads the nearest
+// stored set and must advance it by exactly the remaining rounds.
+//
+// IncrementProposerPriority loops `times` times, so in the symbolic run it is
+// replaced (check config) by a stand-in that adds `times` to the first
+// validator's priority: the priority then counts the rounds applied, and the
+// same comparison works natively with the real function.
+func verifStubC41Increment(vs *types.ValidatorSet, times int) {
+	vs.Validators[0].ProposerPriority += int64(times)
+}
+
+func verifC41Set() *types.ValidatorSet {
+	vs := &types.ValidatorSet{}
+	for i, p := range []int64{1, 2, 3} {
+		v := &types.Validator{VotingPower: p, PubKey: ed25519.PubKeyEd25519{byte(i + 1)}}
+		v.Address[0] = byte(i + 1)
+		vs.Validators = append(vs.Validators, v)
+	}
+	return vs
+}
+
+func VerifC41_LoadValidatorsAdvance() {
+	h := verifNondetInt64("height")
+	c := verifNondetInt64("lastHeightChanged")
+	verifAssume(c >= 1 && c <= h)
+	verifAssume(h <= 1<<40)
+	verifAssume(h-c <= 250000) // at most three checkpoints between the change and the request
+	verifC41Objs, verifC41Heights = nil, nil
+	db := &verifC41DB{}
+	base := verifC41Set()
+	at := func(height int64) *types.ValidatorSet { // the set in effect at `height`
+		s := base.Copy()
+		if height > c {
+			s.IncrementProposerPriority(int(height - c))
+		}
+		return s
+	}
+	saveValidatorsInfo(db, c, c, at(c))
+	for k := c - c%valSetCheckpointInterval + valSetCheckpointInterval; k <= h; k += valSetCheckpointInterval {
+		verifReach("a checkpoint lies between the last change and the requested height")
+		saveValidatorsInfo(db, k, c, at(k))
+	}
+	if h != c && h%valSetCheckpointInterval != 0 {
+		saveValidatorsInfo(db, h, c, at(h))
+	}
+	want := at(h)
+	got, err := LoadValidators(db, h)
+	verifAssert(err == nil && got != nil, "the validator set of a saved height loads")
+	if err != nil || got == nil {
+		return
+	}
+	same := len(got.Validators) == len(want.Validators)
+	for i := 0; same && i < len(want.Validators); i++ {
+		same = got.Validators[i].ProposerPriority == want.Validators[i].ProposerPriority &&
+			got.Validators[i].VotingPower == want.Validators[i].VotingPower
+	}
+	verifAssert(same, "the loaded set is the set in effect at the requested height (priorities advanced by exactly the rounds since the stored set)")
 	verifReach("end")
 }
